@@ -436,6 +436,49 @@ Fixpoint pr_run (V : list N) (E : list edge) (st : pr_state) (ops : list pr_op) 
 Definition pr_exec (V : list N) (E : list edge) (st : pr_state) (ops : list pr_op) : pr_state :=
   fold_left (fun s op => fst (pr_step V E s op)) ops st.
 
+(** * Part 5 — PetriAnalyzer (analyzer.py) kept while the analysed network object is edited
+
+    The analyzer holds a REFERENCE to the network and the results of its last compute_siphons_traps();
+    a compute recomputes from the network as it is at that moment.  [AnEdit] is the caller editing the
+    network object (given as the network it has become). *)
+Definition network := (nat * list rxn)%type.        (* number of species, reactions over their ranks *)
+Record an_state := AN { an_net : network;
+                        an_siphons : option (list (list nat));      (* None = not computed yet *)
+                        an_traps : option (list (list nat)) }.
+Inductive an_op :=
+| AnCompute                   (* compute_siphons_traps() *)
+| AnRead                      (* the siphons / traps properties *)
+| AnEdit (net : network).     (* the caller edits the analysed network: it now is [net] *)
+Inductive an_ans :=
+| AnSets (s t : option (list (list nat)))
+| AnDone
+| AnErr.                      (* ValueError: no species or no reaction nodes *)
+
+Definition an_step (k : option nat) (st : an_state) (op : an_op) : an_state * an_ans :=
+  match op with
+  | AnCompute =>
+      let G := bipartite_of (fst (an_net st)) (snd (an_net st)) in
+      match find_siphons G k with
+      | None => (st, AnErr)                          (* raised before anything was stored *)
+      | Some s =>
+          match find_traps G k with
+          | None => (AN (an_net st) (Some s) (an_traps st), AnErr)
+          | Some t => (AN (an_net st) (Some s) (Some t), AnDone)
+          end
+      end
+  | AnRead => (st, AnSets (an_siphons st) (an_traps st))
+  | AnEdit net => (AN net (an_siphons st) (an_traps st), AnDone)
+  end.
+
+Fixpoint an_run (k : option nat) (st : an_state) (ops : list an_op) : list an_ans :=
+  match ops with
+  | [] => []
+  | op :: ops' => let '(st', a) := an_step k st op in a :: an_run k st' ops'
+  end.
+
+Definition an_exec (k : option nat) (st : an_state) (ops : list an_op) : an_state :=
+  fold_left (fun s op => fst (an_step k s op)) ops st.
+
 (** * Observables (DESIGN Appendix B, C20) *)
 
 Definition tnset (l : list nat) : tok := tset tnat l.
@@ -516,3 +559,14 @@ Definition tstate (st : pr_state) : tok :=
 Definition run_hist (vertices : list N) (edges : list edge) (flow : list Z) (ops : list pr_op) : tok :=
   tlist (fun ast : pr_ans * pr_state => L [tans (fst ast); tstate (snd ast)])
         (pr_run vertices edges (pr_loaded flow) ops).
+
+Definition tan_ans (a : an_ans) : tok :=
+  match a with
+  | AnSets s t => L [I 1; match s with Some l => L [tlist tnset l] | None => L [] end;
+                         match t with Some l => L [tlist tnset l] | None => L [] end]
+  | AnDone => L [I 4]
+  | AnErr => L [I 9]
+  end.
+
+Definition run_ana (k : option nat) (net0 : network) (ops : list an_op) : tok :=
+  tlist tan_ans (an_run k (AN net0 None None) ops).
